@@ -272,6 +272,43 @@ func c16Check(c c16Config) (sig, detail string) {
 			}
 		}
 	}
+	// With the message rate limit disabled (0) a session must carry an ordinary signaling
+	// exchange of any length: more messages than the burst allowance, all delivered in order.
+	if c.Flags["ws-msgs-per-sec"] == "0" {
+		burst := 100
+		if v, ok := c.Flags["ws-msgs-burst"]; ok {
+			burst, _ = strconv.Atoi(v)
+		}
+		n := burst + 25
+		if n > 160 {
+			n = 160
+		}
+		for i := 0; i < n; i++ {
+			env, _ := protocol.NewEnvelope("x-verif-c16", protocol.NewMsgID(), map[string]int{"i": i})
+			env.To = c.RecvID
+			if err := host.conn.Send(env); err != nil {
+				return "message-rate-zero-not-unlimited", fmt.Sprintf("--ws-msgs-per-sec 0: sending message %d of %d failed: %v", i+1, n, err)
+			}
+		}
+		deadline := time.Now().Add(4 * time.Second)
+		for {
+			recv.mu.Lock()
+			got := 0
+			for _, e := range recv.envs {
+				if e.Type == "x-verif-c16" {
+					got++
+				}
+			}
+			recv.mu.Unlock()
+			if got >= n {
+				break
+			}
+			if time.Now().After(deadline) {
+				return "message-rate-zero-not-unlimited", fmt.Sprintf("--ws-msgs-per-sec 0 (documented: disabled), burst %d: only %d of %d messages from the host reached the receiver", burst, got, n)
+			}
+			time.Sleep(2 * time.Millisecond)
+		}
+	}
 	return "", ""
 }
 
